@@ -33,6 +33,7 @@ struct vf_ghost {
   unsigned completed; int channel;
   int cb_state1, cb_state2; unsigned cb_constructs, cb_destructs;
   unsigned stopped_children, starts;
+  unsigned inline_runs, inline_took, inline_stopped;   /* callbacks run inline by construct: how many, how many took a unit, how many forwarded stop */
   _Bool dv_threw;
   _Bool dead; struct attach_op snap;
 };
@@ -71,14 +72,16 @@ static _Bool vf_nb(void) { return VF_nondet_bool() ? 1 : 0; }
   && ((i) == 1 ? SAME_CB2(o, n) : SAME_CB1(o, n)))
 
 /* rely of a call with role R (callback index cbi) owning `mine` units */
-#define RELY_(o, n, role, cbi, mine, started) ( INV(n) \
+#define RELY_(o, n, role, cbi, mine, started, reg1, reg2) ( INV(n) \
+  && ((reg1) || (B((n).g.f1) == B((o).g.f1) && B((n).g.a1) == B((o).g.a1)))   /* a callback that is not registered (yet / any more) is not invoked */ \
+  && ((reg2) || (B((n).g.f2) == B((o).g.f2) && B((n).g.a2) == B((o).g.a2))) \
   && (!(o).g.k ? !(n).g.k : 1) && (!(o).g.e || (n).g.e) && (!(o).g.f1 || (n).g.f1) && (!(o).g.f2 || (n).g.f2) \
   && (!((o).g.f1 && !(o).g.a1) || !(n).g.a1 || ((role) == ROLE_CB && (cbi) == 1))   /* C03: a callback that has returned does not run again */ \
   && (!((o).g.f2 && !(o).g.a2) || !(n).g.a2 || ((role) == ROLE_CB && (cbi) == 2)) \
   && ((started) || B((n).g.k) == B((o).g.k))                                  /* the child does not signal before it is started */ \
   && ((role) != ROLE_CHILD || (mine) == 0 || (n).g.k)                          /* nobody consumes my unit */ \
   && ((role) != ROLE_CB || (B(A_OF(n, cbi)) == ((mine) == 1) && B(F_OF(n, cbi)) == B(F_OF(o, cbi))))   /* I am callback cbi: nobody else plays it */ )
-#define RELY(o, n) RELY_(o, n, G.role, G.cbi, G.mine, G.started)
+#define RELY(o, n) RELY_(o, n, G.role, G.cbi, G.mine, G.started, G.cb_state1 != CB_NONE_, G.cb_state2 != CB_NONE_)
 
 static struct pst pst_now(void) { struct pst s; s.c = OP.refcount_; s.g = G.p; return s; }
 static void pst_set(struct pst s) { OP.refcount_ = s.c; G.p = s.g; }
@@ -149,9 +152,12 @@ static void EV_cb_construct(struct attach_op* self, int which) {
   if (VF_nondet_bool()) {
     VF_CANARY("a stop callback can run inline inside construct");
     int r = G.role, ci = G.cbi; G.role = ROLE_CB; G.cbi = which;
+    G.cas_ok = 0; G.decs = 0; G.stopped_children = 0;   /* per-call counters now describe the inline callback */
     if (which == CB_STOKEN) G.cb_state1 = CB_EXEC_ME; else G.cb_state2 = CB_EXEC_ME;
     stop_callback_call(&SCB);
     G.role = r; G.cbi = ci;
+    G.inline_runs++; G.inline_took += G.cas_ok; G.inline_stopped += G.stopped_children;
+    G.cas_ok = 0; G.decs = 0; G.stopped_children = 0;
     if (which == CB_STOKEN) { if (G.cb_state1 == CB_EXEC_ME) G.cb_state1 = CB_REGISTERED; } else { if (G.cb_state2 == CB_EXEC_ME) G.cb_state2 = CB_REGISTERED; }
   }
 }
@@ -210,7 +216,7 @@ static _Bool EV_set_value(int* r) {
 #define FRESH_CALL (G.cas_ok == 0 && FRESH_DEC)
 #define OWNER_PRE (FRESH_DEC && INV_NOW && G.mine == 1 \
    && ((G.role == ROLE_CHILD && G.p.k && G.started && G.cb_state1 == CB_REGISTERED && G.cb_state2 == CB_REGISTERED) \
-    || (G.role == ROLE_CB && (G.cbi == 1 || G.cbi == 2) && A_NOW(G.cbi) && F_NOW(G.cbi) && MY_CB_STATE == CB_EXEC_ME && OTHER_CB_STATE == CB_REGISTERED && G.stopped_children >= 1)))
+    || (G.role == ROLE_CB && (G.cbi == 1 || G.cbi == 2) && A_NOW(G.cbi) && F_NOW(G.cbi) && MY_CB_STATE == CB_EXEC_ME && (OTHER_CB_STATE == CB_REGISTERED || (OTHER_CB_STATE == CB_NONE_ && !G.started && G.p.k)) && G.stopped_children >= 1)))
 #define CHILD_PRE (FRESH_CALL && INV_NOW && G.mine == 1 && G.role == ROLE_CHILD && G.p.k && G.started && G.cb_state1 == CB_REGISTERED && G.cb_state2 == CB_REGISTERED && G.stopped_children == 0)
 /* a callback that has just been invoked and has not made its CAS yet (f clear), holding nothing; the other registration exists (constructed, or not yet: start() constructs 1 then 2) */
 #define CALLBACK_PRE (FRESH_CALL && INV_NOW && G.role == ROLE_CB && (G.cbi == 1 || G.cbi == 2) && G.mine == 0 && !F_NOW(G.cbi) && !A_NOW(G.cbi) \
@@ -220,18 +226,20 @@ static _Bool EV_set_value(int* r) {
  * a loser must not touch the operation any more */
 #define TRY_POST(rv) (G.decs == 1 && G.mine == 0 && ((rv) == NULL || (rv) == &OP.receiver_) && (((rv) != NULL) == (G.dec_old == 1)) && B(G.elected) == ((rv) != NULL) \
    && ((rv) != NULL ==> (G.p.e && !G.p.k && !G.dead && G.cb_state1 == CB_DESTRUCTED && G.cb_state2 == CB_DESTRUCTED && G.cb_destructs == 2)) \
-   && ((rv) == NULL ==> (G.cb_destructs == 0 && B(G.dead) == B(G.started))) && UNTOUCHED && (G.dead || INV_NOW))
+   && ((rv) == NULL ==> (G.cb_destructs == 0 && B(G.dead) == B(G.started))) && UNTOUCHED && (G.dead || INV_NOW) && (G.role != ROLE_CB || !A_NOW(G.cbi)))
 #define TRY_FRAME ((__CPROVER_return_value != NULL || (G.cb_state1 == __CPROVER_old(G.cb_state1) && G.cb_state2 == __CPROVER_old(G.cb_state2))) \
-   && (G.started || G.role != ROLE_CB || B(G.p.k) == B(__CPROVER_old(G.p.k))) && (!__CPROVER_old(G.p.f1) || G.p.f1) && (!__CPROVER_old(G.p.f2) || G.p.f2))
+   && (G.started || G.role != ROLE_CB || B(G.p.k) == B(__CPROVER_old(G.p.k))) && (!__CPROVER_old(G.p.f1) || G.p.f1) && (!__CPROVER_old(G.p.f2) || G.p.f2) \
+   && (__CPROVER_old(G.cb_state1) != CB_NONE_ || B(G.p.f1) == B(__CPROVER_old(G.p.f1))) && (__CPROVER_old(G.cb_state2) != CB_NONE_ || B(G.p.f2) == B(__CPROVER_old(G.p.f2))))
 /* a party that releases its unit and completes the receiver if elected */
 #define RELEASE_POST(ch) (G.decs == 1 && G.mine == 0 && G.completed <= 1 && ((G.completed == 1) == (G.dec_old == 1)) \
    && (G.completed == 1 ==> (G.elected && G.channel == (ch) && G.cb_state1 == CB_DESTRUCTED && G.cb_state2 == CB_DESTRUCTED && G.cb_destructs == 2)) \
-   && (G.completed == 0 ==> G.cb_destructs == 0) && (G.dec_old != 1 || (G.p.e && !G.p.k)) && B(G.dead) == (G.completed == 1 || G.started) && UNTOUCHED && (G.dead || INV_NOW))
-#define CALLBACK_POST (G.cas_ok <= 1 && UNTOUCHED && (G.dead || INV_NOW) \
+   && (G.completed == 0 ==> G.cb_destructs == 0) && (G.dec_old != 1 || (G.p.e && !G.p.k)) && B(G.elected) == (G.dec_old == 1) && (G.role != ROLE_CB || !A_NOW(G.cbi)) && B(G.dead) == (G.completed == 1 || G.started) && UNTOUCHED && (G.dead || INV_NOW))
+#define CALLBACK_POST (G.cas_ok <= 1 && UNTOUCHED && (G.dead || INV_NOW) && !G.dv_threw && (G.cas_ok == 0 || F_NOW(G.cbi)) && !A_NOW(G.cbi) && B(G.elected) == (G.completed == 1) \
    && (G.cas_ok == 0 ==> (G.decs == 0 && G.stopped_children == 0 && G.completed == 0 && !G.dead && G.cb_destructs == 0 && G.mine == 0)) \
    && (G.cas_ok == 1 ==> (G.stopped_children == 1 && RELEASE_POST(CH_DONE))))
 #define CALLBACK_FRAME ((G.completed == 1 || (G.cb_state1 == __CPROVER_old(G.cb_state1) && G.cb_state2 == __CPROVER_old(G.cb_state2))) \
-   && (G.started || B(G.p.k) == B(__CPROVER_old(G.p.k))) && (!__CPROVER_old(G.p.f1) || G.p.f1) && (!__CPROVER_old(G.p.f2) || G.p.f2))
+   && (G.started || B(G.p.k) == B(__CPROVER_old(G.p.k))) && (!__CPROVER_old(G.p.f1) || G.p.f1) && (!__CPROVER_old(G.p.f2) || G.p.f2) \
+   && (__CPROVER_old(G.cb_state1) != CB_NONE_ || B(G.p.f1) == B(__CPROVER_old(G.p.f1))) && (__CPROVER_old(G.cb_state2) != CB_NONE_ || B(G.p.f2) == B(__CPROVER_old(G.p.f2))))
 
 int* attach_op_try_complete(struct attach_op* self)
 __CPROVER_requires(self == &OP && OWNER_PRE) /*P*/
@@ -256,22 +264,24 @@ __CPROVER_ensures(CALLBACK_FRAME)
 
 void attach_op_construct_stop_callbacks(struct attach_op* self)
 __CPROVER_requires(self == &OP && FRESH_CALL && INV_NOW && G.role == ROLE_NONE && G.mine == 0 && !G.started && G.starts == 0 && G.stopped_children == 0)
-__CPROVER_requires(G.cb_state1 == CB_NONE_ && G.cb_state2 == CB_NONE_ && G.cb_constructs == 0)
+__CPROVER_requires(G.cb_state1 == CB_NONE_ && G.cb_state2 == CB_NONE_ && G.cb_constructs == 0 && G.inline_runs == 0 && G.inline_took == 0 && G.inline_stopped == 0)
 __CPROVER_requires(OP.refcount_ == refcount_INIT && G.p.k && !G.p.a1 && !G.p.a2 && !G.p.f1 && !G.p.f2 && !G.p.e) /* freshly constructed (lemma_init) */
-__CPROVER_assigns(A_REQUEST_STOP, G.role, G.cbi, G.cb_constructs)
+__CPROVER_assigns(A_REQUEST_STOP, G.role, G.cbi, G.cb_constructs, G.inline_runs, G.inline_took, G.inline_stopped)
 __CPROVER_ensures(G.completed == 0 && !G.dead && INV_NOW && G.p.k) /* C01: nothing is delivered before the child is started */
 __CPROVER_ensures(G.cb_constructs == 2 && G.cb_state1 == CB_REGISTERED && G.cb_state2 == CB_REGISTERED && G.cb_destructs == 0) /* C04: registered on both tokens */
-__CPROVER_ensures(G.role == ROLE_NONE && G.mine == 0)
+__CPROVER_ensures(G.role == ROLE_NONE && G.mine == 0 && G.cas_ok == 0 && G.decs == 0 && G.stopped_children == 0)
+__CPROVER_ensures(G.inline_runs <= 2 && G.inline_stopped == G.inline_took) /* C04: a stop request that arrived before start() is forwarded to the (not yet started) child's token */
 /*@BODY construct_stop_callbacks*/
 
 void attach_op_start(struct attach_op* op)
 __CPROVER_requires(op == &OP && FRESH_CALL && INV_NOW && G.role == ROLE_NONE && G.mine == 0 && !G.started && G.starts == 0 && G.stopped_children == 0)
-__CPROVER_requires(G.cb_state1 == CB_NONE_ && G.cb_state2 == CB_NONE_ && G.cb_constructs == 0)
+__CPROVER_requires(G.cb_state1 == CB_NONE_ && G.cb_state2 == CB_NONE_ && G.cb_constructs == 0 && G.inline_runs == 0 && G.inline_took == 0 && G.inline_stopped == 0)
 __CPROVER_requires(OP.refcount_ == refcount_INIT && G.p.k && !G.p.a1 && !G.p.a2 && !G.p.f1 && !G.p.f2 && !G.p.e)
-__CPROVER_assigns(A_REQUEST_STOP, G.role, G.cbi, G.cb_constructs, G.started, G.starts)
+__CPROVER_assigns(A_REQUEST_STOP, G.role, G.cbi, G.cb_constructs, G.inline_runs, G.inline_took, G.inline_stopped, G.started, G.starts)
 __CPROVER_ensures(G.completed == 0) /* C01: start() itself delivers nothing; a completion during start() comes from the child's own completion */
 __CPROVER_ensures(G.cb_constructs == 2 && G.cb_state1 == CB_REGISTERED && G.cb_state2 == CB_REGISTERED && G.cb_destructs == 0)
 __CPROVER_ensures(G.starts == 1 && G.started && G.dead && UNTOUCHED) /* nothing touched after the child was started */
+__CPROVER_ensures(G.inline_stopped == G.inline_took) /* C04 */
 /*@BODY start*/
 
 void attach_receiver_set_value(struct attach_receiver* self)
@@ -299,7 +309,7 @@ static void h_havoc(void) {
   G.cas_ok = VF_nondet_u32(); G.decs = VF_nondet_u32(); G.dec_old = VF_nondet_size_t();
   G.elected = vf_nb(); G.completed = VF_nondet_u32(); G.channel = CH_NONE;
   G.cb_state1 = VF_nondet_int(); G.cb_state2 = VF_nondet_int(); G.cb_constructs = VF_nondet_u32(); G.cb_destructs = VF_nondet_u32();
-  G.stopped_children = VF_nondet_u32(); G.starts = VF_nondet_u32(); G.dv_threw = vf_nb();
+  G.stopped_children = VF_nondet_u32(); G.starts = VF_nondet_u32(); G.inline_runs = VF_nondet_u32(); G.inline_took = VF_nondet_u32(); G.inline_stopped = VF_nondet_u32(); G.dv_threw = vf_nb();
   G.dead = vf_nb(); G.snap = OP;
   SCB.op_ = &OP; RCV.op_ = &OP;
 }
@@ -317,7 +327,7 @@ void h_request_stop(void) {
   if (G.completed) { VF_CANARY("request_stop can complete with done"); } else if (G.cas_ok) { VF_CANARY("request_stop can be a non-last owner"); }
 }
 void h_stop_callback_call(void) { h_havoc(); stop_callback_call(&SCB); VF_CANARY("after stop_callback::operator()"); }
-void h_construct(void) { h_havoc(); attach_op_construct_stop_callbacks(&OP); VF_CANARY("after construct_stop_callbacks"); if (G.cas_ok) { VF_CANARY("construct with a token already stopped"); } }
+void h_construct(void) { h_havoc(); attach_op_construct_stop_callbacks(&OP); VF_CANARY("after construct_stop_callbacks"); if (G.inline_took) { VF_CANARY("construct with a token already stopped"); } if (G.inline_runs == 2) { VF_CANARY("both callbacks can run inline"); } }
 void h_start(void) { h_havoc(); attach_op_start(&OP); VF_CANARY("after start"); }
 void h_ar_set_value(void) { h_havoc(); attach_receiver_set_value(&RCV); VF_CANARY("after receiver set_value"); if (G.completed) { VF_CANARY("set_value can complete"); } else { VF_CANARY("set_value can lose to a stop callback"); } if (G.dv_threw) { VF_CANARY("set_value can throw"); } }
 void h_ar_set_error(void) { h_havoc(); attach_receiver_set_error(&RCV); VF_CANARY("after receiver set_error"); if (G.completed) { VF_CANARY("set_error can complete"); } }
@@ -360,8 +370,10 @@ void lemma_rely(void) {
   __CPROVER_assume(roleB != ROLE_CHILD || mineB == 0 || o.g.k);
   __CPROVER_assume(roleB != ROLE_CB || B(A_OF(o, cbiB)) == (mineB == 1));
   __CPROVER_assume(!a_is_child || started);
+  _Bool reg1 = vf_nb(), reg2 = vf_nb();
+  __CPROVER_assume((a_cb != 1 || reg1) && (a_cb != 2 || reg2));   /* a callback acts only while it is registered */
   VF_CANARY("lemma_rely premises satisfiable");
-  VF_P(RELY_(o, n, roleB, cbiB, mineB, started), "lemma: every guarantee step of a party is allowed by the rely of every other party");
+  VF_P(RELY_(o, n, roleB, cbiB, mineB, started, reg1, reg2), "lemma: every guarantee step of a party is allowed by the rely of every other party");
 }
 void lemma_init(void) {
   struct pst s; s.c = refcount_INIT;
